@@ -98,13 +98,20 @@ func kvBackends(levelDB bool) []kvBackend {
 					panic(err)
 				}
 			}
-			return idb.NewPrefixDB(b, prefix), b, cl
+			pfx := prefix
+			if strings.HasSuffix(name, "spare capacity)") {
+				// a prefix slice with spare capacity: appending a key to it must not write into a shared array
+				pfx = append(make([]byte, 0, 64), prefix...)
+			}
+			return idb.NewPrefixDB(b, pfx), b, cl
 		}})
 	}
 	mk("MemDB", mem, nil)
 	for _, p := range [][]byte{[]byte("p"), []byte("p\xff"), {0xff}, {0xff, 0xff}} {
 		mk(fmt.Sprintf("PrefixDB(MemDB,%x)", p), mem, p)
 	}
+	mk("PrefixDB(MemDB,70, prefix slice with spare capacity)", mem, []byte("p"))
+	mk("PrefixDB(MemDB,ffff, prefix slice with spare capacity)", mem, []byte{0xff, 0xff})
 	if levelDB {
 		mk("GoLevelDB", ldb, nil)
 		mk("PrefixDB(GoLevelDB,70ff)", ldb, []byte("p\xff"))
